@@ -468,7 +468,7 @@ impl Read for UniReader<'_> {
 }
 
 pub fn check(ctx: &Ctx) {
-    let l = ctx.tier.pick(8, 10);
+    let l = ctx.tier.pick(8, 12);
     let strings = common::all_strings(&ABC, l);
     ctx.run_space(
         "hasher_h2",
@@ -477,7 +477,7 @@ pub fn check(ctx: &Ctx) {
         strings.par_iter().map(|s| TextCase { s: s.clone() }),
         run_hasher_h2,
     );
-    let lp = ctx.tier.pick(6, 8);
+    let lp = ctx.tier.pick(6, 10);
     let strings_p = common::all_strings(&ABC, lp);
     ctx.run_space(
         "hasher_public",
@@ -486,7 +486,7 @@ pub fn check(ctx: &Ctx) {
         strings_p.par_iter().map(|s| TextCase { s: s.clone() }),
         run_hasher_public,
     );
-    let lr = ctx.tier.pick(7, 9);
+    let lr = ctx.tier.pick(7, 11);
     let strings_r = common::all_strings(&ABC, lr);
     ctx.run_space(
         "normalized_reader",
@@ -522,7 +522,7 @@ pub fn check(ctx: &Ctx) {
         pairs.into_par_iter(),
         run_pair,
     );
-    let ws = common::all_strings(&ABC, 4);
+    let ws = common::all_strings(&ABC, ctx.tier.pick(4, 5));
     let mut bc = Vec::new();
     for &boundary in &[512usize, 1024, 1536, 8192, 16384] {
         for w in &ws {
@@ -544,7 +544,7 @@ pub fn check(ctx: &Ctx) {
     ctx.run_space(
         "window_edges",
         true,
-        "x^a . w . y^t (t in {0,1,7}: the text may end exactly at the edge) with w over {CR,LF,x}, |w| <= 4, every alignment of w across offsets 512, 1024, 1536, 8192, 16384; hasher cuts at every position in/around w; NormalizedReader with 6 source and 4 consumer patterns; sign_text_data -> verify",
+        "x^a . w . y^t (t in {0,1,7}: the text may end exactly at the edge) with w over {CR,LF,x}, |w| <= 4 (thorough 5), every alignment of w across offsets 512, 1024, 1536, 8192, 16384; hasher cuts at every position in/around w; NormalizedReader with 6 source and 4 consumer patterns; sign_text_data -> verify",
         bc.into_par_iter(),
         run_boundary,
     );
